@@ -42,13 +42,14 @@ static int count_fds(void) {
 }
 
 static long s_uv, s_heap; static int s_fds;
+static void at(const char* what, int n) { fprintf(stderr, "at %s %d\n", what, n); }
 static void begin(void) { s_fds = count_fds(); s_uv = uv_live; s_heap = (long) __sanitizer_get_current_allocated_bytes(); }
 static void end(const char* name, long result) {
   long heap = (long) __sanitizer_get_current_allocated_bytes() - s_heap, uvb = uv_live - s_uv;
   int fds = count_fds() - s_fds;
   if (round_no >= 2)
     printf("case %s uvblocks=%ld heap=%ld fds=%d result=%s cb=%d\n", name, uvb, heap, fds,
-           result < 0 ? uv_err_name((int) result) : "ok", cbs);
+           result == 12345 ? "FOREIGN-POINTER-TOUCHED" : result < 0 ? uv_err_name((int) result) : "ok", cbs);
 }
 
 static long wait_req(int rc, uv_fs_t* req) {
@@ -64,10 +65,10 @@ static void block_work(uv_work_t* w) { uv_sem_wait(&gate); }
 static void block_done(uv_work_t* w, int st) { blocker_done = 1; }
 
 static char names[16][24];
-#define NKINDS 46
+#define NKINDS 60
 /* issue request kind `id`; returns rc of uv_fs_*.  Paths: f (file, 7 bytes), d (dir with 3 entries), e (empty dir),
    l (symlink -> f), nope (missing) */
-static int fdf;
+static int fdf, fdd, fdo;
 static uv_buf_t bufs6[6]; static char mem[64];
 static int issue(int id, uv_fs_t* r, uv_fs_cb cb, const char** name) {
   switch (id) {
@@ -118,6 +119,20 @@ static int issue(int id, uv_fs_t* r, uv_fs_cb cb, const char** name) {
     K(43, "ftruncate-ok", uv_fs_ftruncate(&loop, r, fdf, 7, cb))
     K(44, "fsync-ok", uv_fs_fsync(&loop, r, fdf, cb))
     K(45, "fdatasync-ebadf", uv_fs_fdatasync(&loop, r, -1, cb))
+    K(46, "access-enoent", uv_fs_access(&loop, r, "nope", R_OK, cb))
+    K(47, "fchmod-ebadf", uv_fs_fchmod(&loop, r, -1, 0644, cb))
+    K(48, "utime-enoent", uv_fs_utime(&loop, r, "nope", 1000, 2000, cb))
+    K(49, "lutime-enoent", uv_fs_lutime(&loop, r, "nope", 1000, 2000, cb))
+    K(50, "ftruncate-ebadf", uv_fs_ftruncate(&loop, r, -1, 7, cb))
+    K(51, "fsync-ebadf", uv_fs_fsync(&loop, r, -1, cb))
+    K(52, "mkdir-enoent", uv_fs_mkdir(&loop, r, "nope/m", 0755, cb))
+    K(53, "rmdir-enotdir", uv_fs_rmdir(&loop, r, "f", cb))
+    K(54, "unlink-eisdir", uv_fs_unlink(&loop, r, "d", cb))
+    K(55, "copyfile-eexist", uv_fs_copyfile(&loop, r, "f", "l", UV_FS_COPYFILE_EXCL, cb))
+    K(56, "lstat-enoent", uv_fs_lstat(&loop, r, "nope", cb))
+    K(57, "open-eisdir", uv_fs_open(&loop, r, "d", O_WRONLY, 0, cb))
+    K(58, "read-eisdir", uv_fs_read(&loop, r, fdd, bufs6, 6, 0, cb))
+    K(59, "sendfile-ok", uv_fs_sendfile(&loop, r, fdo, fdf, 0, 4, cb))
 #undef K
   }
   return UV_EINVAL;
@@ -149,6 +164,7 @@ int main(int argc, char** argv) {
   close(open("d/a", O_CREAT | O_WRONLY, 0644)); close(open("d/b", O_CREAT | O_WRONLY, 0644));
   fdf = open("f", O_CREAT | O_RDWR, 0644);
   if (write(fdf, "abcdefg", 7) != 7 || symlink("f", "l")) return 2;
+  fdd = open("d", O_RDONLY | O_DIRECTORY); fdo = open("out", O_CREAT | O_RDWR, 0644);
   for (i = 0; i < 6; i++) bufs6[i] = uv_buf_init(mem + i, 1);
   uv_sem_init(&gate, 0);
   printf("start %s\n", argv[1]);
@@ -161,6 +177,7 @@ int main(int argc, char** argv) {
     /* 1. every kind, success / failure */
     for (id = 0; id < NKINDS; id++) {
       uv_fs_t r; const char* name = "?"; long res;
+      at("kind", id);
       begin();
       res = wait_req(issue(id, &r, CB, &name), &r);
       undo(id, &r, res);
@@ -173,6 +190,7 @@ int main(int argc, char** argv) {
       for (di = 0; di < 3; di++) {
         for (k = 0; k <= 4; k++) {
           uv_fs_t r; uv_dirent_t de; long res; int j, got = 0; char nm[48];
+          at(dirs[di], k);
           begin();
           res = wait_req(uv_fs_scandir(&loop, &r, dirs[di], 0, CB), &r);
           for (j = 0; j < k; j++) if (uv_fs_scandir_next(&r, &de) == 0) got++;
@@ -189,6 +207,7 @@ int main(int argc, char** argv) {
       for (b = 1; b <= 4; b += 3) {
         for (j = 0; j <= 4; j++) {
           uv_fs_t r; uv_dir_t* dir; uv_dirent_t des[4]; long res; int q; char nm[48];
+          at("opendir-readdir", j * 10 + b);
           begin();
           res = wait_req(uv_fs_opendir(&loop, &r, "d", CB), &r);
           dir = res == 0 ? r.ptr : NULL;
@@ -206,12 +225,42 @@ int main(int argc, char** argv) {
       { uv_fs_t r; long res; begin(); res = wait_req(uv_fs_opendir(&loop, &r, "nope", CB), &r); uv_fs_req_cleanup(&r); end("opendir-enoent", res); }
       { uv_fs_t r; long res; begin(); res = wait_req(uv_fs_readdir(&loop, &r, NULL, CB), &r); uv_fs_req_cleanup(&r); end("readdir-null-einval", res); }
     }
+    /* 3b. readdir / closedir that FAIL (the directory's descriptor is closed underneath: EBADF, result < 0 while
+       req->ptr still points at the uv_dir_t); the user's dirents array holds foreign pointers that cleanup must not touch */
+    {
+      int b;
+      for (b = 1; b <= 4; b += 3) {
+        uv_fs_t r; uv_dir_t* dir; uv_dirent_t des[4]; long res, res2; int q; char nm[48];
+        static char foreign[4][8] = { "own0", "own1", "own2", "own3" };
+        at("readdir-ebadf", b);
+        begin();
+        res = wait_req(uv_fs_opendir(&loop, &r, "d", CB), &r);
+        dir = res == 0 ? r.ptr : NULL;
+        uv_fs_req_cleanup(&r);
+        if (dir) {
+          for (q = 0; q < 4; q++) { des[q].name = foreign[q]; des[q].type = UV_DIRENT_UNKNOWN; }
+          dir->dirents = des; dir->nentries = b;
+          close(dirfd(dir->dir));
+          res = wait_req(uv_fs_readdir(&loop, &r, dir, CB), &r);
+          uv_fs_req_cleanup(&r);
+          for (q = 0; q < 4; q++) if (des[q].name != foreign[q] || strncmp(foreign[q], "own", 3)) res = 12345;
+          res2 = wait_req(uv_fs_closedir(&loop, &r, dir, CB), &r);
+          uv_fs_req_cleanup(&r);
+          (void) res2;
+        }
+        snprintf(nm, sizeof nm, "readdir-ebadf-x%d", b);
+        end(nm, res);
+      }
+      { uv_fs_t r; long res; at("scandir-enotdir", 0); begin(); res = wait_req(uv_fs_scandir(&loop, &r, "f", 0, CB), &r); { uv_dirent_t de; uv_fs_scandir_next(&r, &de); } uv_fs_req_cleanup(&r); end("scandir-enotdir-next", res); }
+      { uv_fs_t r; long res; at("opendir-enotdir", 0); begin(); res = wait_req(uv_fs_opendir(&loop, &r, "f", CB), &r); uv_fs_req_cleanup(&r); end("opendir-enotdir", res); }
+    }
     /* 4. cancelled requests (thread pool only: the single worker is held by a blocker) */
     if (mode == POOL) {
-      int ids[] = { 0, 4, 7, 9, 20, 22, 26, 28, 36, 38, 40 }; unsigned q;
+      int ids[] = { 0, 3, 4, 6, 7, 9, 11, 12, 14, 16, 20, 22, 24, 26, 28, 30, 33, 36, 38, 40, 43, 44, 59 }; unsigned q;
       for (q = 0; q < sizeof ids / sizeof *ids; q++) {
         uv_fs_t r; const char* name = "?"; char nm[48]; int rc, crc;
         blocker_done = 0;
+        at("cancel-kind", ids[q]);
         uv_queue_work(&loop, &blocker, block_work, block_done);
         begin();
         rc = issue(ids[q], &r, on_fs, &name);
@@ -223,6 +272,42 @@ int main(int argc, char** argv) {
         uv_fs_req_cleanup(&r);
         snprintf(nm, sizeof nm, "cancel-%s-%s", name, crc == 0 ? "cancelled" : "ran");
         end(nm, rc == 0 ? (long) r.result : rc);
+      }
+      /* opendir / readdir / closedir cancelled while queued; the dirents array holds foreign pointers */
+      {
+        int which;
+        for (which = 0; which < 3; which++) {
+          uv_fs_t r, r2; uv_dir_t* dir = NULL; uv_dirent_t des[2]; int rc, crc; long res; char nm[48]; DIR* saved = NULL;
+          static char foreign[2][8] = { "mine0", "mine1" };
+          at("cancel-dirop", which);
+          begin();
+          if (which > 0) {
+            uv_fs_opendir(&loop, &r2, "d", NULL); dir = r2.ptr; uv_fs_req_cleanup(&r2);
+            des[0].name = foreign[0]; des[1].name = foreign[1];
+            dir->dirents = des; dir->nentries = 2;
+          }
+          uv_queue_work(&loop, &blocker, block_work, block_done);
+          rc = which == 0 ? uv_fs_opendir(&loop, &r, "d", on_fs) : which == 1 ? uv_fs_readdir(&loop, &r, dir, on_fs)
+                                                                              : uv_fs_closedir(&loop, &r, dir, on_fs);
+          crc = rc == 0 ? uv_cancel((uv_req_t*) &r) : rc;
+          uv_sem_post(&gate);
+          cbs = 0;
+          uv_run(&loop, UV_RUN_DEFAULT);
+          res = (long) r.result;
+          if (which == 0 && res == 0) dir = r.ptr;          /* cancel lost the race */
+          if (which == 2 && res == 0) dir = NULL;
+          if (which == 2 && res < 0) { saved = dir->dir; }
+          uv_fs_req_cleanup(&r);
+          /* a closedir that did not run: the directory stream is still the user's to close; whether cleanup left the
+             uv_dir_t usable is what the accounting below shows (it must not half-release it) */
+          if (which == 2 && res < 0) dir = NULL;
+          if (which > 0 && (des[0].name != foreign[0] || des[1].name != foreign[1]) && res < 0) res = 12345;
+          if (which == 1 && res > 0) { /* ran: names were handed out and freed by cleanup */ }
+          if (dir) { uv_fs_closedir(&loop, &r2, dir, NULL); uv_fs_req_cleanup(&r2); }
+          snprintf(nm, sizeof nm, "cancel-%s-%s", which == 0 ? "opendir" : which == 1 ? "readdir" : "closedir", crc == 0 ? "cancelled" : "ran");
+          end(nm, res);
+          if (saved) closedir(saved);   /* after the measurement: do not let the stream linger for the rest of the run */
+        }
       }
       /* scandir cancelled, then iterated: uv_fs_scandir_next on a cancelled request */
       {
@@ -240,7 +325,7 @@ int main(int argc, char** argv) {
       }
     }
   }
-  close(fdf);
+  close(fdf); close(fdd); close(fdo);
   uv_run(&loop, UV_RUN_DEFAULT);
   if (uv_loop_close(&loop)) puts("!loop-close-busy");
   printf("end uvlive=%ld\n", (long) uv_live);
